@@ -243,8 +243,9 @@ def run_stream(name, requests, workdir, nworkers=NCPU, compare=None, weight=None
             ml = mo_lines[k] if k < len(mo_lines) else "<no output>"
             parts = il.split("\t")
             iresp = parts[0]
-            if any(item.startswith("!MORE ") for item in parts[1:]):
-                # more failing inputs than listed: ask again for the complete list
+            if any(item.startswith("!MORE ") for item in parts[1:]) and len(res.props) < 5000:
+                # more failing inputs than listed: ask again for the complete list (bounded: a change
+                # that breaks millions of inputs needs no complete list)
                 _, raw = ask(ORACLE, [req], env={"ORACLE_PROP_CAP": "10000000"})
                 parts = raw[0].split("\t")
             for item in parts[1:]:
